@@ -326,6 +326,9 @@ def check(ctx):
     if not seeders:
         r3.bad(V(r3.id, "<anchor>", "missing:extract_param_types", "anchor not found: where is the event parser's symbol table seeded?"))
     r3.require_floor(13, "templates + line_number reads + symbol-table seeding")
+    # a doc comment is an attribute: it must not decide whether an item counts as a serde type (shared with C07-D5 / C02-D4)
+    from c07 import check_filter_needs_derive
+    check_filter_needs_derive(S, r3)
     rules.append(r3)
 
     # ---------------------------------------------------------------- D4
